@@ -179,6 +179,8 @@ class PostgreSQLQueryBuilder(QueryBuilder):
             ),
         )
         if self._update_table:
+            # the clauses of the statement start afresh (see QueryBuilder.get_sql)
+            ctx = ctx.copy(with_alias=False, subquery=True)
             if self._with:
                 querystring = self._with_sql(ctx)
             else:
